@@ -23,7 +23,19 @@ cargo test --offline -p "$CRATE" --test "$DEMO" "$@" 2>&1 | grep -E "^test resul
 R2=${PIPESTATUS[0]}
 echo "== (3) existing tests of $CRATE with the patch (demo excluded)"
 rm -f "$W/crates/$CRATE/tests/$DEMO.rs"
-cargo test --offline -p "$CRATE" --no-fail-fast "$@" 2>&1 | grep -E "^test result|FAILED|failed|error(\[|:)" | sort | uniq -c | head -30
-R3=${PIPESTATUS[0]}
+cargo test --offline -p "$CRATE" --no-fail-fast "$@" > /tmp/sa/confirm-3.log 2>&1
+R3=$?
+grep -E "FAILED|failed|error(\[|:)" /tmp/sa/confirm-3.log | sort | uniq -c | head -20
+if [ "$R3" != 0 ]; then
+  # timing-sensitive targets flake under load: re-run each failed target alone, single-threaded
+  R3=0
+  grep -oE "to rerun pass \`[^\`]*\`" /tmp/sa/confirm-3.log | sed 's/to rerun pass `//; s/`$//' | sort -u | while read -r ARGS; do
+    echo "-- re-running failed target alone: $ARGS"
+    if ! cargo test --offline $ARGS -- --test-threads=1 2>&1 | grep -E "^test result|FAILED" | head -5; then :; fi
+  done
+  for ARGS in $(grep -oE "to rerun pass \`[^\`]*\`" /tmp/sa/confirm-3.log | sed 's/to rerun pass `//; s/`$//; s/ /,/g' | sort -u); do
+    if ! cargo test --offline ${ARGS//,/ } -- --test-threads=1 >/dev/null 2>&1; then R3=1; fi
+  done
+fi
 reset
 echo "CONFIRM $(basename "$SRC"): demo-on-original exit=$R1 (want 0)  demo-with-patch exit=$R2 (want !=0)  existing-tests-with-patch exit=$R3 (want 0)"
